@@ -35,6 +35,26 @@ func streamC11(c *Ctx) {
 	if !c.Quick() {
 		depth = 5
 	}
+	// rt: the law itself first (what was encoded decodes to the same document, types included), then the byte-level
+	// comparison with the model; a byte-level disagreement alone is a correspondence break, not a failing input
+	rt := func(m1 map[string]interface{}) bool {
+		c.Evals++
+		enc1, err := d.Encode(d.NewDocumentOf(m1))
+		if err != nil {
+			c.Violation(&Replay{Stream: "codec", Case: []interface{}{J{"k": "codec", "doc": encDoc(m1)}}, Actual: []string{err.Error()}, Note: "document.Encode refuses a representable document"})
+			return false
+		}
+		dec, derr := d.Decode(enc1)
+		if derr != nil || canonDoc(dec.AsMap()) != canonDoc(m1) {
+			got := ""
+			if derr == nil {
+				got = canonDoc(dec.AsMap())
+			}
+			c.Violation(&Replay{Stream: "codec", Case: []interface{}{J{"k": "codec", "doc": encDoc(m1)}}, Expected: []string{canonDoc(m1)}, Actual: []string{fmt.Sprint(derr), got}, Note: "Decode(Encode(d)) differs from d"})
+			return false
+		}
+		return codecBytes(c, dr, m1, enc1)
+	}
 	// zone offsets, systematically: every offset Go's binary time format can carry comes back as written - in
 	// particular the negative ones with a seconds component, which time.MarshalBinary itself gets wrong (F34);
 	// -60 s (the format's UTC marker) is the one offset Encode refuses, with an error
@@ -56,7 +76,7 @@ func streamC11(c *Ctx) {
 			c.Count("zone-offset-cell")
 			// byte level, on a document with one entry per map (the bytes are then determined): model = implementation
 			m1 := map[string]interface{}{"t": []interface{}{t, map[string]interface{}{"z": t}}}
-			if enc1, err := d.Encode(d.NewDocumentOf(m1)); err != nil || !codecBytes(c, dr, m1, enc1) {
+			if !rt(m1) {
 				return
 			}
 		}
@@ -65,14 +85,14 @@ func streamC11(c *Ctx) {
 		g := NewGen(c.Rng, Domain{})
 		for i := 0; i < c.N(300, 3000); i++ {
 			m1 := map[string]interface{}{[]string{"v", "", "a long key of more than thirty-one bytes .."}[g.pick(3)]: g.Value(2)}
-			if enc1, err := d.Encode(d.NewDocumentOf(m1)); err != nil || !codecBytes(c, dr, m1, enc1) {
+			if !rt(m1) {
 				return
 			}
 		}
 		// length thresholds of the string / array / map headers (31|32, 255|256, 65535|65536; 15|16, 65535|65536)
 		for _, n := range []int{0, 1, 31, 32, 255, 256, 65535, 65536, 70000} {
 			m1 := map[string]interface{}{"s": strings.Repeat("x", n)}
-			if enc1, err := d.Encode(d.NewDocumentOf(m1)); err != nil || !codecBytes(c, dr, m1, enc1) {
+			if !rt(m1) {
 				return
 			}
 		}
@@ -86,7 +106,7 @@ func streamC11(c *Ctx) {
 				arr[i] = int64(i)
 			}
 			m1 := map[string]interface{}{"a": arr}
-			if enc1, err := d.Encode(d.NewDocumentOf(m1)); err != nil || !codecBytes(c, dr, m1, enc1) {
+			if !rt(m1) {
 				return
 			}
 			if n <= 17 || c.Tier == "thorough" {
@@ -94,7 +114,7 @@ func streamC11(c *Ctx) {
 				for i := 0; i < n; i++ {
 					mm[fmt.Sprintf("k%05d", i)] = int64(i)
 				}
-				if enc1, err := d.Encode(d.NewDocumentOf(mm)); err != nil || !codecBytes(c, dr, mm, enc1) {
+				if !rt(mm) {
 					return
 				}
 			}
